@@ -98,8 +98,9 @@ class Adjoint(Sub):
         lt, dtype = case["ltype"], case["dtype"]
         alt = R.ALG_OF[lt]
         eps = tu.EPS[dtype]
-        X = tu.lie(lt, case["X"], dtype, shape=case["sx"])
-        a = tu.lie(alt, case["a"], dtype, shape=case["sa"])
+        X = tu.lie(lt, case["X"], dtype, shape=case["sx"], view=tu.view_of(case, "X"))
+        a = tu.lie(alt, case["a"], dtype, shape=case["sa"], view=tu.view_of(case, "a"))
+        rec.label("layout:" + ("contiguous" if X.tensor().is_contiguous() and a.tensor().is_contiguous() else "noncontiguous_operand"))
         at = a if case["lie_a"] else a.tensor()
         out = _bshape(case["sx"], case["sa"])
         with rec.sut("Adj/AdjT"):
@@ -348,8 +349,9 @@ class Jinvp(Sub):
         lt, dtype = case["ltype"], case["dtype"]
         alt = R.ALG_OF[lt]
         eps = tu.EPS[dtype]
-        X = tu.lie(lt, case["X"], dtype, shape=case["sx"])
-        p = tu.lie(alt, case["p"], dtype, shape=case["sp"])
+        X = tu.lie(lt, case["X"], dtype, shape=case["sx"], view=tu.view_of(case, "X"))
+        p = tu.lie(alt, case["p"], dtype, shape=case["sp"], view=tu.view_of(case, "p"))
+        rec.label("layout:" + ("contiguous" if X.tensor().is_contiguous() and p.tensor().is_contiguous() else "noncontiguous_operand"))
         out = _bshape(case["sx"], case["sp"])
         with rec.sut("Jinvp"):
             arg = p if case["lie_p"] else p.tensor()
@@ -418,7 +420,8 @@ class Jr(Sub):
     def oracle(self, case, rec):
         dtype = case["dtype"]
         eps = tu.EPS[dtype]
-        x = tu.lie("so3", case["x"], dtype, shape=case["lshape"])
+        x = tu.lie("so3", case["x"], dtype, shape=case["lshape"], view=tu.view_of(case, "x"))
+        rec.label("layout:" + ("contiguous" if x.tensor().is_contiguous() else "noncontiguous_operand"))
         with rec.sut("Jr"):
             fn = case["dseed"] % 2 == 1          # functional form pp.Jr(.) for every other case
             if case["group"]:
